@@ -54,6 +54,7 @@ type entry struct {
 	docPanic    func(b []byte) bool                         // documented panic domain (nil = never)
 	needNeutral bool                                        // failure must leave the documented neutral state
 	big         bool                                        // also fed 4 KiB / 1 MiB inputs
+	oracle      func(b []byte) bool                         // optional: whether the call must succeed on b (a reference decoder): "signalling malformed input" includes not accepting it
 }
 
 func e(err error) bool { return err == nil }
@@ -130,7 +131,8 @@ func table() []entry {
 	not32 := func(b []byte) bool { return len(b) != 32 }
 	return []entry{
 		// scalars
-		{name: "scalar.ScMinimalVartime", valid: []int{32}, good: one, call: func(b []byte) (bool, string) { return scalar.ScMinimalVartime(b), sNone }},
+		{name: "scalar.ScMinimalVartime", valid: []int{32}, good: one, call: func(b []byte) (bool, string) { return scalar.ScMinimalVartime(b), sNone },
+			oracle: func(b []byte) bool { return len(b) == 32 && ref.FromLE(b).Cmp(ref.L) < 0 }},
 		{name: "scalar.SetBytesModOrder", valid: []int{32}, good: one, call: func(b []byte) (bool, string) {
 			s := newSc()
 			_, err := s.SetBytesModOrder(b)
@@ -286,7 +288,8 @@ func table() []entry {
 			ok, _ := ecvrf.Verify(pub, proof, b)
 			return ok || !bytes.Equal(b, []byte("a")), sNone
 		}},
-		{name: "ecvrf.ProofToHash", valid: []int{80}, good: c32(proof), call: func(b []byte) (bool, string) { _, err := ecvrf.ProofToHash(b); return e(err), sNone }},
+		{name: "ecvrf.ProofToHash", valid: []int{80}, good: c32(proof), call: func(b []byte) (bool, string) { _, err := ecvrf.ProofToHash(b); return e(err), sNone },
+			oracle: func(b []byte) bool { _, ok := ref.VRFProofToHash(b); return ok }},
 		{name: "ecvrf.Prove(alpha=b)", valid: nil, good: func() []byte { return []byte("a") }, big: true, call: func(b []byte) (bool, string) { ecvrf.Prove(priv, b); return true, sNone }},
 		// X25519
 		{name: "x25519.X25519(scalar=b)", valid: []int{32}, good: one, call: func(b []byte) (bool, string) { _, err := x25519.X25519(b, x25519.Basepoint); return e(err), sNone }},
@@ -523,6 +526,11 @@ func runOne(r *mon.Run, en *entry, c Case) {
 		r.Hist("documented-panic/" + en.name)
 	case !validLen && success:
 		r.Violate("untrusted/"+en.name+"/wrong-length-accepted", fmt.Sprintf("len=%d fill=%s reported as success", len(b), c.Fill), c)
+	}
+	if !panicked && !exceeded && en.oracle != nil && b != nil {
+		if want := en.oracle(b); want != success {
+			r.Violate(fmt.Sprintf("untrusted/%s/accepts-differently-from-the-reference-decoder/want=%v", en.name, want), fmt.Sprintf("len=%d fill=%s: the call reports success=%v, the reference decoder says %v", len(b), c.Fill, success, want), c)
+		}
 	}
 	if !panicked && !exceeded {
 		if success {
